@@ -95,7 +95,7 @@ def const_of(ctx, fn, expr):
 def all_funcs_with_closures(fns):
     for f in fns:
         yield f
-        yield from all_funcs_with_closures(f.nested().values())
+        yield from all_funcs_with_closures(f.nested_list())
 
 
 def hierarchy_funcs(program, root_qual):
